@@ -576,6 +576,16 @@ class Inventory:
 
     def _range_of(self, an, st, o):
         """('from'|'range'|'to'|'incl', start lin, end lin) of a range-typed operand"""
+        if isinstance(o, dict) and isinstance(o.get("const"), dict) and o["const"].get("path"):
+            import absint as _ai
+            flds = _ai.CONST_FIELDS.get(_ai.norm_const_path(o["const"]["path"]))
+            cty = o["const"].get("ty", "")
+            if flds and isinstance(flds.get("start"), int) and isinstance(flds.get("end"), int):
+                if "RangeInclusive" in cty:
+                    return ("range", lin_const(flds["start"]), lin_const(flds["end"] + 1))
+                if re.search(r"ops::Range<", cty):
+                    return ("range", lin_const(flds["start"]), lin_const(flds["end"]))
+            return None
         p = op_place(o)
         k = key_of(p) if p else None
         if not k:
@@ -715,8 +725,25 @@ class Inventory:
     # ---------------------------------------------------------------- provenance
     def describe(self, an, s):
         if s.kind == "panic":
+            macs = [str(m).rsplit("::", 1)[-1].lstrip("$") for m in s.mac]
+            # an assertion is described with the condition it states (the text of its failure message), so that a
+            # discharge row speaks about that assertion and no other
+            text = ""
+            for o in s.ops or []:
+                c = o.get("const") if isinstance(o, dict) else None
+                if isinstance(c, dict) and isinstance(c.get("str"), str) and c["str"].startswith("assertion failed: "):
+                    text = "[%s]" % c["str"][len("assertion failed: "):]
+            if not text and len(s.ops or []) >= 3 and (callee_name(s.term) or "").endswith("assert_failed"):
+                # assert_eq! / assert_ne!: the two compared expressions
+                try:
+                    text = "[%s <> %s]" % (self.prov(an, s.ops[1], 0), self.prov(an, s.ops[2], 0))
+                except Exception:
+                    text = ""
+            for m in ("debug_assert", "debug_assert_eq", "debug_assert_ne"):
+                if m in macs:
+                    return "panic!%s@%s%s" % (m, s.swctx or "", text)
             for m in ("unreachable", "unimplemented", "assert", "assert_eq", "assert_ne", "todo", "panic"):
-                if m in s.mac:
+                if m in macs:
                     return "panic!%s@%s" % (m, s.swctx or "")
             return "panic!core@%s" % (s.swctx or "")
         ops = ",".join(self.prov(an, o, 0) for o in s.ops)
@@ -819,6 +846,10 @@ class Inventory:
             nm = callee_name(t)
             if nm is None:
                 return "indirect-call<%s>" % _short_ty(ty)
+            mconv = re.search(r"convert::From<(bool|[iu](?:8|16|32|64|128|size))> for ([iu](?:8|16|32|64|128|size))>::from$", nm)
+            if mconv and len(t["args"]) == 1:
+                # a lossless integer conversion reads like the cast it replaces
+                return "(%s as %s)" % (self.prov(an, t["args"][0], depth + 1), mconv.group(2))
             return "%s(%s)" % (_short(nm), ",".join(self.prov(an, a, depth + 1) for a in t["args"]))
         return "tmp<%s>" % _short_ty(ty)
 
